@@ -11,14 +11,18 @@ func VerifC14Load() {
 	minN := verifParam("minN", 1)
 	n := minN + verifChoice("frames", maxN-minN+1)
 	shift := verifChoice("lenShift", verifParam("shifts", 1)) + 1
+	c14Concrete = n > verifParam("symN", 4)
 	p := c14NewPayload(n, 0, c14Lens(shift), c14Perm)
 	st := &c14Store{missing: -1}
 	st.add(p)
 
-	mode := verifChoice("meta", 3)
+	mode := verifChoice("meta", verifParam("modes", 3))
 	switch mode {
 	case 0: // current writer: total and checksum on every frame
 		h := verifInt("hash")
+		if verifParam("fixedHash", 0) == 1 {
+			h = int(c14Crc(p.orig)) // the value the current writer records
+		}
 		p.setMeta(n, true, h)
 		got, err := LoadDataFromDataFrames(p.frames[0], st.get)
 		isCrc := uint64(h) == c14Crc(p.orig)
